@@ -78,17 +78,22 @@ let () =
          let aux = match rt with
            | "check" :: rest -> if rest = ["same"] then 1 else 0
            | "dump" :: rest ->
-             (* last token = comma-separated record hashes; baseline = first dump of the history *)
-             let hs = match List.rev rest with
-               | last :: _ when Stdlib.String.length last >= 8 && not (Stdlib.String.contains last '=') -> String.split_on_char ',' last
-               | _ -> [] in
+             (* record hashes: "<all>" and "view=<interface-level records>"; baseline = first dump of the history.
+                aux = 1: every baseline record is still there; 3: every baseline VIEW record is; 0: neither *)
+             let split_h s = List.filter (fun x -> x <> "") (String.split_on_char ',' s) in
+             let is_view t = Stdlib.String.length t >= 5 && Stdlib.String.sub t 0 5 = "view=" in
+             let vh = match List.find_opt is_view rest with Some t -> split_h (Stdlib.String.sub t 5 (Stdlib.String.length t - 5)) | None -> [] in
+             let ah = match List.filter (fun t -> not (is_view t) && not (Stdlib.String.contains t '=')) rest with t :: _ -> split_h t | [] -> [] in
              if Hashtbl.length dumps = 0 then begin
-               Hashtbl.add dumps "#baseline" 0; List.iter (fun h -> Hashtbl.replace dumps h 1) hs; 1 end
+               Hashtbl.add dumps "#baseline" 0;
+               List.iter (fun h -> Hashtbl.replace dumps ("a" ^ h) 1) ah; List.iter (fun h -> Hashtbl.replace dumps ("v" ^ h) 1) vh; 1 end
              else begin
-               let cur = Hashtbl.create 64 in List.iter (fun h -> Hashtbl.replace cur h 1) hs;
-               let ok = ref true in
-               Hashtbl.iter (fun h _ -> if h <> "#baseline" && not (Hashtbl.mem cur h) then ok := false) dumps;
-               if !ok then 1 else 0 end
+               let cur = Hashtbl.create 64 in
+               List.iter (fun h -> Hashtbl.replace cur ("a" ^ h) 1) ah; List.iter (fun h -> Hashtbl.replace cur ("v" ^ h) 1) vh;
+               let all_ok = ref true and view_ok = ref true in
+               Hashtbl.iter (fun h _ -> if h <> "#baseline" && not (Hashtbl.mem cur h) then
+                                          (if h.[0] = 'v' then view_ok := false else all_ok := false)) dumps;
+               if !all_ok && !view_ok then 1 else if !view_ok then 3 else 0 end
            | _ ->
              (match kind_of name, args with
               | Some k, slot :: _ ->
